@@ -20,18 +20,9 @@ pub enum Msg {
     Done,
 }
 
-static POOLS: std::sync::OnceLock<Mutex<HashMap<usize, Arc<rayon::ThreadPool>>>> = std::sync::OnceLock::new();
-pub fn get_pool(n: usize) -> Arc<rayon::ThreadPool> {
-    let m = POOLS.get_or_init(|| Mutex::new(HashMap::new()));
-    let mut g = m.lock().unwrap();
-    g.entry(n)
-        .or_insert_with(|| Arc::new(rayon::ThreadPoolBuilder::new().num_threads(n.max(1)).build().unwrap()))
-        .clone()
-}
-pub fn drop_pool(n: usize) {
-    if let Some(m) = POOLS.get() {
-        m.lock().unwrap().remove(&n);
-    }
+/// One rayon pool per run: a call that never returns wedges its pool, which must not affect other runs.
+pub fn make_pool(n: usize) -> Arc<rayon::ThreadPool> {
+    Arc::new(rayon::ThreadPoolBuilder::new().num_threads(n.max(1)).build().unwrap())
 }
 
 pub fn new_adapter(store: &Arc<Mutex<Store>>) -> Arc<RwLock<Box<dyn Adapter>>> {
@@ -56,13 +47,12 @@ pub struct Outcome {
     pub val: Value,
 }
 
-fn call<T, F: FnOnce() -> anyhow::Result<T>, G: FnOnce(&T) -> Value>(pool: usize, f: F, g: G) -> Outcome
+fn call<T, F: FnOnce() -> anyhow::Result<T>, G: FnOnce(&T) -> Value>(pool: &Arc<rayon::ThreadPool>, f: F, g: G) -> Outcome
 where
     F: Send,
     T: Send,
 {
-    let p = get_pool(pool);
-    let r = catch_unwind(AssertUnwindSafe(|| p.install(f)));
+    let r = catch_unwind(AssertUnwindSafe(|| pool.install(f)));
     match r {
         Ok(Ok(v)) => Outcome { kind: "ok", msg: String::new(), val: g(&v) },
         Ok(Err(e)) => Outcome { kind: "err", msg: e.to_string(), val: Value::Null },
@@ -73,6 +63,7 @@ where
 pub struct Run {
     pub id: u64,
     pub pool: usize,
+    pub tp: Arc<rayon::ThreadPool>,
     pub reps: Vec<Option<Replica>>,
     pub stores: Vec<Arc<Mutex<Store>>>,
     pub tables: Arc<Mutex<Tables>>,
@@ -97,6 +88,7 @@ impl Run {
         let mut run = Run {
             id,
             pool,
+            tp: make_pool(pool),
             reps: vec![],
             stores: vec![],
             tables,
@@ -148,9 +140,8 @@ impl Run {
         let store = Arc::new(Mutex::new(Store::from_items(items)));
         let full = self.full;
         let tables = self.tables.clone();
-        let pool = self.pool;
+        let p = self.tp.clone();
         let res = catch_unwind(AssertUnwindSafe(|| {
-            let p = get_pool(pool);
             match p.install(|| Melda::new(new_adapter(&store))) {
                 Ok(m) => {
                     let mut rep = Replica { name: "fresh".into(), melda: m, store: store.clone(), order_memo: HashMap::new() };
@@ -257,7 +248,7 @@ impl Run {
             return;
         }
         self.begin(&format!("{} r{}", name, r));
-        let pool = self.pool;
+        let pool = &self.tp.clone();
         match name {
             "update" | "edit" => {
                 let doc: Map<String, Value> = if name == "update" {
@@ -473,7 +464,7 @@ impl Run {
                         // the replica stays closed; record the failed open without an observation
                         self.i += 1;
                         let ev = json!({"run": self.id, "i": self.i, "op": "OpenFailed", "r": rname(r), "a": {},
-                            "res": {"kind": out.kind, "msg": tok(&out.msg), "val": null}, "pool": pool, "obs": {"closed": true}, "x": {}});
+                            "res": {"kind": out.kind, "msg": tok(&out.msg), "val": null}, "pool": self.pool, "obs": {"closed": true}, "x": {}});
                         if out.kind == "panic" {
                             self.dead = true;
                         }
@@ -617,6 +608,15 @@ pub fn run_spec(spec: Value, timeout: Duration) -> RunResult {
                     }
                 }
             }
+            if let Ok(dir) = std::env::var("MVH_DUMP") {
+                for (r, st) in run.stores.iter().enumerate() {
+                    let d = format!("{}/run{}_r{}", dir, id, r);
+                    let _ = std::fs::create_dir_all(&d);
+                    for (k, b) in st.lock().unwrap().items() {
+                        let _ = std::fs::write(format!("{}/{}", d, k), b.as_slice());
+                    }
+                }
+            }
             let _ = tx.send(Msg::Done);
             // keep `run` alive until here; replicas are dropped with it
         })
@@ -631,7 +631,6 @@ pub fn run_spec(spec: Value, timeout: Duration) -> RunResult {
             Ok(Msg::Done) => break,
             Err(RecvTimeoutError::Timeout) => {
                 timed_out = Some(last_begin.clone());
-                drop_pool(pool);
                 break;
             }
             Err(RecvTimeoutError::Disconnected) => break,
